@@ -20,6 +20,13 @@ PROPS = {
         bound=dict(quick="number strings <= 6 bytes; supplementary pairs at bit-field edges; ws deviations on T(1,2) only",
                    thorough="number strings <= 8 bytes; all 1,048,576 supplementary pairs; ws deviations on all of T(2,2)"),
         states_stat="cases", transitions_stat="calls",
+        technique="exhaustive enumeration of bounded input languages executed on the real parser, compared with a reference reader",
+        claim="every text of the enumerated sub-languages was parsed by the real code in both modes and both delivery forms "
+              "and its typed dump compared with an independent RFC 8259 reader; a complete family leaves no position-dependent "
+              "escape/number/structure defect inside the bound unobserved",
+        note="reference reader + value model (mc/vmodel.c) trusted; glibc strtod as correctly rounded conversion; texts longer/deeper than the families not covered",
         assumptions=COMMON_ASSUMPTIONS + ["strtod of glibc in the C locale is the correctly rounded conversion (pinned by selftest against Python float)"],
     ),
 }
+
+NOT_APPLICABLE = {}
